@@ -95,6 +95,13 @@ func fixedType(t *Type) *Type {
 	return &t2
 }
 
+// elementType returns the type of an element taken out of a value of
+// composite type t with an index or dot expression. Such an element is
+// assignable like a variable, not like a literal.
+func elementType(t *Type) *Type {
+	return fixedType(t.Sub)
+}
+
 // String returns a string representation of the Type.
 func (t *Type) String() string {
 	if t == nil {
